@@ -590,3 +590,20 @@ def cas_loops_fresh(R, F, fn_pat, floor, why):
                 n += 1
     R.floor('compare_exchange retry loops (%s)' % fn_pat[:60], n, floor)
     return n
+
+
+def _flat(node):
+    """All string atoms of a JSON fact node (used for cheap 'mentions field X' tests)."""
+    out = []
+
+    def walk(x):
+        if isinstance(x, str):
+            out.append(x)
+        elif isinstance(x, (list, tuple)):
+            for y in x:
+                walk(y)
+        elif isinstance(x, dict):
+            for y in x.values():
+                walk(y)
+    walk(node)
+    return out
